@@ -52,6 +52,41 @@ TWrite    == Is("w")        /\ Write(Ev.t, Ev.n, Ev.k, Ev.o, Ev.v)
 TDelete   == Is("del")      /\ Delete(Ev.t, Ev.o) /\ txn[Ev.t].setup /\ Ev.o \in txn[Ev.t].sel
 \* DeleteAt refuses exactly the offsets that are not in the transaction's selection
 TDelMiss  == Is("delmiss")  /\ UNCHANGED vars /\ txn[Ev.t].pc = "body" /\ txn[Ev.t].setup /\ Ev.o \notin txn[Ev.t].sel
+\* ---- filters, iteration, aggregates
+TFilter  == Is("flt") /\ (IF Ev.f \in {"with", "without", "union", "withunion"}
+                            THEN FilterNames(Ev.t, Ev.f, Ev.names, Ev.first)
+                            ELSE FilterValue(Ev.t, Ev.f, Ev.col, Ev.p))
+TCount   == Is("count") /\ UNCHANGED vars /\ Selected(Ev.t) /\ Ev.n = SelCount(Ev.t)
+\* Range visits each selected row exactly once in ascending offset order; readers are positioned on it
+TRange ==
+  /\ Is("range") /\ UNCHANGED vars /\ Selected(Ev.t)
+  /\ LET S == Coll(Ev.t)  seq == Ev.rows IN
+     /\ {seq[i].o : i \in DOMAIN seq} = txn[Ev.t].sel
+     /\ Len(seq) = Cardinality(txn[Ev.t].sel)
+     /\ \A i \in 1..(Len(seq) - 1) : seq[i].o < seq[i + 1].o
+     /\ Pairs(Ev.filler) = txn[Ev.t].self
+     /\ \A i \in DOMAIN seq : (seq[i].o \in S.live \cup txn[Ev.t].reserved) =>
+           \A n \in DOMAIN seq[i].vals :
+              /\ seq[i].vals[n][1] = (seq[i].o \in S.has[n])
+              /\ seq[i].vals[n][1] => seq[i].vals[n][2] = ValueAt(S, n, seq[i].o)[2]
+\* Sum / Avg / Min / Max over the selected rows that hold a value; Avg is logged in thousandths
+TAgg ==
+  /\ Is("agg") /\ UNCHANGED <<st, txn, used, files>> /\ Selected(Ev.t)
+  /\ LET S == Coll(Ev.t)
+         strictRows == AggRows(Ev.t, Ev.col)
+     IN \E mode \in Modes("D-aggregates-ignore-presence") :
+        LET rows == IF mode = "strict" THEN strictRows ELSE txn[Ev.t].sel
+            n == Cardinality(rows) + (IF mode = "strict" THEN 0 ELSE FillerSize(txn[Ev.t].self))
+            sum == SumOver(S, Ev.col, rows)
+            vals == {S.data[Ev.col][o] : o \in rows} \cup (IF mode = "asbuilt" /\ txn[Ev.t].self # {} THEN {0} ELSE {})
+        IN /\ mode = "asbuilt" => (rows # strictRows \/ txn[Ev.t].self # {})
+           /\ dev' = IF mode = "asbuilt" THEN dev \cup {"D-aggregates-ignore-presence"} ELSE dev
+           /\ CASE Ev.fn = "sum" -> Ev.v = sum
+                [] Ev.fn = "avg" -> IF n = 0 THEN ~Ev.ok
+                                    ELSE Ev.ok /\ LET d == Ev.v * n - 1000 * sum IN 2 * (IF d < 0 THEN -d ELSE d) <= n
+                [] Ev.fn = "min" -> IF vals = {} THEN ~Ev.ok ELSE Ev.ok /\ Ev.v = MinOf(vals)
+                [] Ev.fn = "max" -> IF vals = {} THEN ~Ev.ok ELSE Ev.ok /\ Ev.v = MaxOf(vals)
+
 TKDelete  == Is("kdel")     /\ Delete(Ev.t, Ev.o)      \* DeleteKey does not consult the selection
 TKeyCheck == Is("kchk")     /\ KeyCheck(Ev.t, Ev.fn, Ev.k, Ev.found, Ev.o)
 TKeyEnd   == Is("kend")     /\ KeyEnd(Ev.t, Ev.err)
@@ -177,7 +212,7 @@ Diag == IF Ev.e = "dump" THEN DumpDiag ELSE IF Ev.e = "apply" THEN ApplyDiag ELS
 
 TNext == \/ TReset \/ TDrop \/ TRes \/ TLogEnd \/ TCreateCol \/ TCreateIdx \/ TDropIdx \/ TCreateSort \/ TCreateTrig \/ TDropTrig \/ TTransport
          \/ TBulkIns \/ TBulkDel \/ TBulkReplay
-         \/ TBegin \/ TSel \/ TReserve \/ TInsFail \/ TWrite \/ TDelete \/ TDelMiss \/ TKDelete \/ TKeyCheck \/ TKeyEnd \/ TRollback \/ TCommitStart
+         \/ TBegin \/ TSel \/ TReserve \/ TInsFail \/ TWrite \/ TDelete \/ TFilter \/ TCount \/ TRange \/ TAgg \/ TDelMiss \/ TKDelete \/ TKeyCheck \/ TKeyEnd \/ TRollback \/ TCommitStart
          \/ TApply \/ TAfter \/ TSnap \/ TRestore \/ TReplay \/ TRead \/ TDump
 TSpec == TInit /\ [][TNext]_tvars
 
